@@ -1,4 +1,5 @@
 import NomtModel.Store.ExtRangePhase
+import NomtModel.Store.ExtRangeSorted
 import NomtModel.Store.ExtRangeToy
 /-!
 # C13 — the multi-worker split of the beatree update and its extend-range protocol
@@ -170,13 +171,69 @@ theorem T13_seeded_high_max_counterexample :
       ((Toy.stage {} Toy.lvlC Toy.csC n p.1 p.2).map fun r => r.1.flatten) == some (Toy.specKeys Toy.lvlC Toy.csC)) = true := by
   refine ⟨?_, ?_, ?_⟩ <;> decide +kernel
 
+/-- **T13.worker_keys_once_every_schedule** — what DOES hold about the list handed to `filter_*_changeset`, for every updater,
+level, change list, worker count and EVERY interleaving: every worker's tracker keeps strictly ascending keys (`SInv`; the
+mirror's `upsert` / `extend` / `pop_first` keep the order the `BTreeMap` has by construction), so every worker hands every
+separator to `apply_*_changes` AT MOST ONCE and in key order — the premise `hasc` of Q38's `T1_filter_disjoint_workers`.  The
+other premise (`hdis`: no separator in two workers' lists) is false in general (`T13_trackers_disjoint_counterexample`): a
+separator can occur in the lists of two workers.  That it then occurs exactly twice, once with `Some` and once with `None`
+(Q38's `PairInv`, the contract of the duplicate branch), is what the real code showed in every run (`extrange` oracle: the
+stage does not panic in `filter_*_changeset`, the content is the sequential one) and is NOT proved. -/
+theorem T13_worker_keys_once_every_schedule {σ N C : Type} (U : Upd σ N C) (cfg : Cfg) (hs : cfg.staleHigh = false)
+    (hm : cfg.highMax = false) (db : List (DbN N)) (cs : List (Nat × C)) (look : Nat → Option Nat)
+    (hlook : ∀ k s, look k = some s → s ≤ k) (hasc : Asc (cs.map (·.1))) (hne : cs ≠ []) (count : Nat) (s : List Nat) :
+    match runSched U cfg db s (initG U cfg db cs (prepareWorkers look (cs.map (·.1)) count)) with
+    | .inr g' => ∀ i, (workerChanges (g'.ws i)).1.Pairwise (fun a b => a.1 < b.1)
+    | .inl _ => True := by
+  have hc := (T13_prepare_workers_partition look hlook (cs.map (·.1)) hasc (by simpa using hne) count).1
+  have := sinv_runSched U cfg db hs hm s _ (inv_init U cfg db cs (cs.map (·.1)) _ none 0 false hc)
+    (sinv_init U cfg db cs _)
+  cases hr : runSched U cfg db s (initG U cfg db cs (prepareWorkers look (cs.map (·.1)) count)) with
+  | inl _ => trivial
+  | inr g' => rw [hr] at this; exact fun i => workerChanges_sorted _ (this i)
+
+/-- FULL statement asked for — `T13_trackers_disjoint_every_schedule` — FALSE (see the two counterexamples below): "when the
+workers have returned no separator is held by two workers' trackers". -/
+def TrackersDisjoint {σ N C : Type} (g : G σ N C) : Prop :=
+  ∀ i j, i < g.n → j < g.n → i ≠ j → ∀ k e e', (k, e) ∈ (g.ws i).tr.inner → (k, e') ∈ (g.ws j).tr.inner → False
+
+/-- **T13.trackers_disjoint_counterexample** (kernel-checked; the real `leaf_stage::run` and `branch_stage::run` do the same:
+`extrange` family `dup`) — the statement "no separator is ever held by two workers' trackers" is FALSE, for the `LeafUpdater`
+convention too.  Toy updater that splits in the middle (`updH`), level `[10..13] [20,21] [30,31,32] [40,41,42]`, changes: delete
+11, 12, 13 and 21, two workers, both schedule policies: the right worker merges its under-full first node `[20]` with
+`[30,31,32]` — the node under 20 is handed to the left worker, the delete mark `(30, None)` of the merged-away node stays in
+the right worker's tracker (its `next_separator` 40 became the right worker's `range.low`: the mark lies BELOW `low`); the left
+worker merges its rest `[10]` with `[20,30,31,32]`, splits in the middle and produces a node under the separator 30.  When
+both return, worker 0 hands `(10,Some) (20,None) (30,Some)` and worker 1 hands `(30,None)` to `apply_*_changes`: the
+duplicate branch of `filter_*_changeset` is TAKEN (it keeps the `Some`), and the resulting level is the sequential content.
+So `T1_filter_duplicate_branch_dead` is false as well; what does hold is the filter's own contract (Q38's `PairInv`: equal
+separators come in pairs, one `Some` one `None`), which this instance satisfies. -/
+theorem T13_trackers_disjoint_counterexample :
+    ([(false, 1000), (true, 1)].all fun p =>
+      Toy.stageParts Toy.updH Toy.lvlE Toy.csE 2 p.1 p.2 ==
+        some ([[(10, true), (20, false), (30, true)], [(30, false)]], [[10, 20], [30, 31, 32], [40, 41, 42]])) = true ∧
+    [[10, 20], [30, 31, 32], [40, 41, 42]].flatten = Toy.specKeys Toy.lvlE Toy.csE := by
+  constructor <;> decide +kernel
+
+/-- **T13.tracker_key_below_low_counterexample** (kernel-checked) — the lower side of the tracker law, "every key in a
+worker's tracker is `≥` its `range.low`", is FALSE.  (a) `BranchUpdater` convention (`updB`: both halves of a split get the
+cutoff as `next_separator`): the right worker's first node `[20..23]` + the inserts 24, 25 splits into the nodes under 20
+and 24; after the answer that hands over the node under 20 the right worker's `range.low` is 30 and its tracker still holds
+the produced node under 24.  (b) `LeafUpdater` convention (`updH`, the instance above): after the answer the right worker's
+`range.low` is 40 and its tracker holds the delete mark under 30.  The real code shows both (`extrange` counters
+`*_entry_held_below_low`: an entry handed over under a key below an earlier `new_high_range` of the same responder). -/
+theorem T13_tracker_key_below_low_counterexample :
+    Toy.trackersAt Toy.updB Toy.lvlD Toy.csD [] 8 = some [(none, [10]), (some 30, [24])] ∧
+    Toy.trackersAt Toy.updH Toy.lvlE Toy.csE [] 9 = some [(none, [10, 20, 30]), (some 40, [30])] := by
+  constructor <;> decide +kernel
+
 /-! ## non-vacuity -/
 
 /-- the toy updater satisfies the scope laws -/
 example : ScopeLaws Toy.upd (fun st => st.cutoff) := by
   refine ⟨fun st k => rfl, ?_⟩
   intro st st' outs c h
-  simp only [Toy.upd, Toy.digest] at h
+  simp only [Toy.upd, Toy.digest, Toy.digestG, Bool.false_eq_true, if_false] at h
   split at h
   · cases h
   · split at h
